@@ -8,6 +8,7 @@ import threading
 
 import common
 from common import Disagreement, Failure, hexs, req
+from whitebox import HarnessBlind
 
 ID = 'C17'
 DRIVER = 'drv_C17'
@@ -28,8 +29,9 @@ TRUSTED_BASE = [
     'hand-written model OsloModel/Version.lean (int() for str, str.split, the suffix re.sub, the predicate regex, '
     'the three converters, is_compatible, VersionPredicate), tied to versionutils.py by this correspondence',
     'tables read from the running interpreter / the code into Generated/C17.lean: re \\s set, int() whitespace set, '
-    'Unicode decimal-digit zero points, sys.get_int_max_str_digits(), VersionPredicate._COMP_MAP, '
-    '_PREDICATE_MATCH.pattern/flags',
+    'Unicode decimal-digit zero points, sys.get_int_max_str_digits(), the operator table of VersionPredicate '
+    '(its dict of operator functions located by shape, else probed through satisfied_by on 1.0 < 1.5 < 2.0), '
+    'the clause pattern text/flags (the compiled regex located by type)',
     'packaging.version is a parameter of the model (parse -> abstract value with a major number, six comparison '
     'operators); the harness passes, per case, validity, the dense rank of Version._key and .major, and checks '
     'on every case that the six operators of packaging agree with comparing that rank',
@@ -82,17 +84,120 @@ def char_tables():
             'max_digits': sys.get_int_max_str_digits()}
 
 
-def tables():
-    from oslo_utils import versionutils
-    t = char_tables()
+# ---- private details of VersionPredicate, located by shape / derived by probing ------------------
+# (pattern of harness/whitebox.py: pinned name first, then discovery, then the public API; a detail
+# that cannot be had at all is HarnessBlind - never an implementation outcome)
+
+_wb = {}
+OP_TEXTS = ['<', '<=', '==', '>', '>=', '!=']
+# satisfied_by on the lattice 1.0 < 1.5 < 2.0 against the bound 1.5 identifies the comparison
+_VECTOR_NAME = {(True, False, False): 'lt', (True, True, False): 'le', (False, True, False): 'eq',
+                (False, False, True): 'gt', (False, True, True): 'ge', (True, False, True): 'ne'}
+
+
+def _is_operator_table(v):
+    return isinstance(v, dict) and len(v) > 0 and all(
+        isinstance(k, str) and getattr(f, '__name__', None) in CMP_NAMES and
+        getattr(f, '__module__', '') in ('_operator', 'operator') for k, f in v.items())
+
+
+def _is_clause_regex(v):
+    if not isinstance(v, re.Pattern) or v.groups != 2:
+        return False
+    m = v.match('>=1.0')
+    return bool(m) and m.groups() == ('>=', '1.0')
+
+
+def _one(pinned, cands):
+    if pinned is not None:
+        return pinned
+    return cands[0] if len(cands) == 1 else None
+
+
+def clause_regex():
+    """the compiled clause pattern (class attribute, else module level), or None"""
+    if 'regex' not in _wb:
+        m = vu()
+        cls = m.VersionPredicate
+        pinned = getattr(cls, '_PREDICATE_MATCH', None)
+        pinned = pinned if isinstance(pinned, re.Pattern) else None
+        found = _one(pinned, [v for v in vars(cls).values() if isinstance(v, re.Pattern)])
+        if found is None:
+            found = _one(None, [v for v in list(vars(cls).values()) + list(vars(m).values()) if _is_clause_regex(v)])
+        _wb['regex'] = found
+    return _wb['regex']
+
+
+def probe_comparators():
+    """operator text -> operator name, through the public API only"""
+    VP = vu().VersionPredicate
     comp = []
-    for k, f in versionutils.VersionPredicate._COMP_MAP.items():
-        name = getattr(f, '__name__', None)
-        if not isinstance(k, str) or name not in CMP_NAMES or getattr(f, '__module__', '') not in ('_operator', 'operator'):
-            raise RuntimeError('_COMP_MAP entry %r -> %r is not one of the six operator functions' % (k, f))
-        comp.append((k, name))
-    pm = versionutils.VersionPredicate._PREDICATE_MATCH
-    t.update({'comp': comp, 'pattern': pm.pattern, 'flags': pm.flags})
+    for op in OP_TEXTS:
+        try:
+            vp = VP(op + '1.5')
+            vec = tuple(vp.satisfied_by(c) is True for c in ('1.0', '1.5', '2.0'))
+        except Exception:
+            continue            # this operator text is not accepted (any more): leave it out of the table
+        if vec not in _VECTOR_NAME:
+            raise RuntimeError('VersionPredicate(%r) behaves like none of the six comparisons on 1.0 < 1.5 < 2.0: %r'
+                               % (op + '1.5', vec))
+        comp.append((op, _VECTOR_NAME[vec]))
+    return comp
+
+
+def comparator_table():
+    """[(operator text, operator.<name>)]: the code's own table if there is one (whatever it is called),
+    otherwise what each operator text does on a small version lattice"""
+    m = vu()
+    cls = m.VersionPredicate
+    pinned = getattr(cls, '_COMP_MAP', None)
+    pinned = pinned if _is_operator_table(pinned) else None
+    table = _one(pinned, [v for v in vars(cls).values() if _is_operator_table(v)])
+    if table is None:
+        table = _one(None, [v for v in vars(m).values() if _is_operator_table(v)])
+    if table is not None:
+        return [(k, f.__name__) for k, f in table.items()], 'table'
+    return probe_comparators(), 'probed'
+
+
+def _is_pair_list(v):
+    P = pv()
+    return isinstance(v, (list, tuple)) and len(v) > 0 and all(
+        isinstance(x, (list, tuple)) and len(x) == 2 and isinstance(x[0], str) and isinstance(x[1], P.Version)
+        for x in v)
+
+
+def parsed_pairs(vp):
+    """the (operator text, Version) pairs a VersionPredicate holds, or None when no attribute has that shape
+    (then only the public verdicts are compared)"""
+    if 'pairs' not in _wb:
+        name = None
+        try:
+            probe = vu().VersionPredicate('>=1.0,<2')
+            if _is_pair_list(getattr(probe, 'pred', None)):
+                name = 'pred'
+            else:
+                hits = [k for k, v in vars(probe).items() if _is_pair_list(v) and len(v) == 2]
+                name = hits[0] if len(hits) == 1 else None
+        except Exception:
+            name = None
+        _wb['pairs'] = name
+    if _wb['pairs'] is None:
+        return None
+    v = getattr(vp, _wb['pairs'], None)
+    if v is not None and len(v) == 0:
+        return []
+    return list(v) if _is_pair_list(v) else None
+
+
+def tables():
+    t = char_tables()
+    comp, how = comparator_table()
+    pm = clause_regex()
+    if pm is None:
+        raise HarnessBlind('the clause pattern of VersionPredicate is not an attribute of the class or the module '
+                           '(the obligation predicate_pattern_is_modelled cannot be re-checked)')
+    t.update({'comp': comp, 'comp_how': how, 'pattern': pm.pattern, 'flags': pm.flags})
     return t
 
 
@@ -130,10 +235,11 @@ def decimalZeros : List Nat := %s
 /-- sys.get_int_max_str_digits() (0 = unlimited) -/
 def intMaxStrDigits : Nat := %d
 
-/-- VersionPredicate._COMP_MAP: key -> operator.<name> (dict order) -/
+/-- the operator table of VersionPredicate: key -> operator.<name> (the class's dict, located by shape; if
+    there is none, what each operator text does on the lattice 1.0 < 1.5 < 2.0 through the public API) -/
 def compMap : List (List Char × List Char) := [%s]
 
-/-- VersionPredicate._PREDICATE_MATCH.pattern / .flags -/
+/-- the clause pattern of VersionPredicate (the compiled regex, located by type): .pattern / .flags -/
 def predicatePattern : List Char := %s
 def predicateFlags : Nat := %d
 
@@ -313,10 +419,11 @@ def impl_pred(case, rank_of):
         vp = m.VersionPredicate(case['pred'])
     except Exception as e:
         return 'init:' + type(e).__name__
-    try:
-        wb = '\tconds=' + (','.join('%s:%s' % (hexs(c), rank_of(v)) for c, v in vp.pred) or '-')
-    except Exception as e:     # the parsed form is no longer (operator text, Version) pairs
-        wb = '\tconds=?' + type(e).__name__
+    pairs = parsed_pairs(vp)
+    if pairs is None:           # no (operator text, Version) list to look at: public verdicts only
+        wb = ''
+    else:
+        wb = '\tconds=' + (','.join('%s:%s' % (hexs(c), rank_of(v)) for c, v in pairs) or '-')
     try:
         r = vp.satisfied_by(case['ver'])
         return ('bool:%d' % r if type(r) is bool else 'other:' + repr(r)[:60]) + wb
@@ -324,9 +431,23 @@ def impl_pred(case, rank_of):
         return 'sat:' + type(e).__name__ + wb
 
 
+def same_outcome(impl, model):
+    """model reply vs implementation outcome; without a located pair list only the public part counts"""
+    if '\t' not in impl:
+        model = model.split('\t')[0]
+    return impl == model
+
+
 def impl_match(piece):
-    r = vu().VersionPredicate._PREDICATE_MATCH.match(piece)
+    """white box, only for display in a replay: what the located clause regex does on the piece"""
+    rx = clause_regex()
+    if rx is None:
+        return 'regex-not-located'
+    r = rx.match(piece)
     return 'nomatch' if not r else 'm:%s:%s' % (hexs(r.group(1)), hexs(r.group(2)))
+
+
+LOW_VERSION, HIGH_VERSION = '0.dev0', '9999!0'
 
 
 # --------------------------------------------------------------------------
@@ -674,26 +795,34 @@ def correspondence(ctx):
         if impl != rep:
             out.append(Disagreement(case, impl, rep))
 
-    # ---- the predicate regex on single pieces (white box) -------------------
+    # ---- the clause grammar on single pieces, through the public API ----------------
+    # the model says how it reads the piece; the implementation is then observed from outside:
+    # the constructor's outcome and satisfied_by below / at / above the bound the model extracted
     pieces = []
     for _ in range(1500 if ctx.quick else 20000):
         c = gen_pred_case(rng)
         pieces += c['pred'].split(',')
     pieces += ['', ' ', '<', '<=', '<= ', '<==', '<=1', '< =1', '<=1 2', '=1', '==1', '== =1', '!=1\n', '\n>1\n\n', '>1\x1c',
                '\x1c>1', '>\x1c1', '>1\x1cx', '~=1', '>=<1', '1', '>', '>>1', '>=>=1', '　>=　1　']
-    replies = ctx.driver.ask_many([req('match', hexs(p)) for p in pieces])
-    for p, rep in zip(pieces, replies):
-        ctx.evaluations += 1
-        impl = impl_match(p)
-        ctx.count('corr/match/' + impl.split(':')[0])
-        if impl != 'nomatch':
-            ctx.nontrivial(('match', p))
-        if impl != rep:
-            out.append(Disagreement({'fn': 'match', 'piece': p}, impl, rep))
+    piece_cases = []
+    for p, rep in zip(pieces, ctx.driver.ask_many([req('match', hexs(p)) for p in pieces])):
+        ctx.count('corr/piece/' + rep.split(':')[0])
+        if rep.startswith('m:'):
+            bound = common.unhexs(rep.split(':')[2])
+            for cand in (bound, LOW_VERSION, HIGH_VERSION):
+                piece_cases.append({'fn': 'pred', 'pred': p, 'ver': cand, 'piece': True})
+        else:
+            piece_cases.append({'fn': 'pred', 'pred': p, 'ver': LOW_VERSION, 'piece': True})
 
     # ---- is_compatible and VersionPredicate ----------------------------------
     vcases = [gen_compat_case(rng) for _ in range(3000 if ctx.quick else 40000)]
-    vcases += [gen_pred_case(rng) for _ in range(3000 if ctx.quick else 40000)]
+    pcases = [gen_pred_case(rng) for _ in range(3000 if ctx.quick else 40000)]
+    vcases += pcases
+    # the same predicates seen from more candidates: at every bound, below all, above all
+    for c in pcases[::3]:
+        for cand in [render_v(v) for _, v in c['comps']] + [LOW_VERSION, HIGH_VERSION]:
+            vcases.append(dict(c, ver=cand, ver_struct=None, probe=True))
+    vcases += piece_cases
     for r, c, sm in [('1.0', '1.0', True), ('1.0', '1.0.0', True), ('1', '2', False), ('1', '2', True), ('2', '1', False),
                      ('1!0.1', '2.0', False), ('1.0', '1!1.0', True), ('0', '0.0.0', True), ('1.0rc1', '1.0', True),
                      ('1.0', '1.0rc1', True), ('1.0.dev1', '1.0a1', True), ('1.0.post1', '1.0', True),
@@ -709,9 +838,10 @@ def correspondence(ctx):
             strings = [case['req'], case['cur']]
         else:
             strings = [case['ver']]
-            for piece in case['pred'].split(','):
-                m = vu().VersionPredicate._PREDICATE_MATCH.match(piece)
-                if m:
+            rx = clause_regex()     # only a guess at what the model will ask for; it says `need:` otherwise
+            for piece in (case['pred'].split(',') if rx is not None else []):
+                m = rx.match(piece)
+                if m and m.lastindex == 2:
                     strings.append(m.group(2))
         infos.append(strings)
         lines.append(vline(case, strings)[0])
@@ -746,13 +876,19 @@ def correspondence(ctx):
                         return rank[s]
                 return '?'
             impl = impl_pred(case, rank_of)
-            ctx.count('corr/pred/' + impl.split('\t')[0] + ('/malformed' if case.get('malformed') else ''))
+            ctx.count('corr/pred/' + impl.split('\t')[0] + ('/malformed' if case.get('malformed') else '')
+                      + ('/piece' if case.get('piece') else '/probe' if case.get('probe') else ''))
+            if '\t' not in impl and not impl.startswith('init:'):
+                ctx.count('corr/pred/public-only')
             if impl.startswith('bool'):
                 ctx.nontrivial(('pred', case['pred'], case['ver']))
         ctx.sample({'case': {k: case[k] for k in case if not k.endswith('struct') and k != 'comps'},
                     'implementation': impl}, 6)
-        if impl != rep:
+        if not same_outcome(impl, rep):
             out.append(Disagreement(case, impl, rep))
+    if _wb.get('pairs', 0) is None:
+        ctx.notes.append('no attribute of VersionPredicate holds (operator text, Version) pairs: parsed clauses were '
+                         'compared through satisfied_by only')
     return out
 
 
@@ -1129,7 +1265,7 @@ def show_both(ctx, case):
     print('case          :', shown)
     print('implementation:', impl[:300].replace('\t', ' '))
     print('model         :', rep[:300].replace('\t', ' '))
-    return 0 if impl == rep else 1
+    return 0 if same_outcome(impl, rep) else 1
 
 
 LEVEL_TEXT = ('Machine-checked proof (Lean 4) over a hand-written model of versionutils.py. Full strength, for every '
